@@ -61,13 +61,15 @@ int Logger::operator()()
 {
    unsigned received(0);
 
-   while (!_stopping)
+   for (;;) // lines queued before stop() are still written: leave on the empty line stop() queues
    {
 		LogElement *msg_ptr(0);
 
 #if (FIX8_MPMC_SYSTEM == FIX8_MPMC_FF)
 		if (!_msg_queue.try_pop(msg_ptr))
 		{
+			if (_stopping)
+				break; // nothing left to write
 			hypersleep<h_microseconds>(200);
 			continue;
 		}
